@@ -21,7 +21,8 @@ Ltac crack := crack_ HM.
 
 Ltac binary_tac Hl Hr :=
   go; rewrite Hl; cbn [visit];
-  match goal with |- context [visit c ?cl ?l ?s] => destruct (visit c cl l s) as [[? ?] ?] end; run;
+  match goal with |- context [visit c ?cl ?l ?s] =>
+    let V := fresh "V" in destruct (visit c cl l s) as [[? ?] ?] eqn:V; try rewrite V in Hr; cbn [snd] in Hr end; run;
   rewrite Hr;
   match goal with |- context [visit c ?cl ?r ?s] => destruct (visit c cl r s) as [[? ?] ?] end; run;
   unfold binary_node_rule, overload, binary_rule, comb, emit, fail_at, record; ev;
@@ -33,7 +34,7 @@ Ltac binary_tac Hl Hr :=
   crack; fin.
 
 Definition binary_bridge (op : binop) : Prop :=
-  forall a l r cols st, child_ok l -> child_ok r ->
+  forall a l r cols st, child_ok cols l st -> child_ok cols r (snd (visit c cols l st)) ->
   VN cols (EBinary a op l r) st = Some (visit c cols (EBinary a op l r) st).
 
 Lemma node_binary_equality op : op = BEq \/ op = BNe -> binary_bridge op.
